@@ -17,8 +17,8 @@ download side
   snapshot = `<STATE> off=<offset> bt=<bytes_transfered> len=<file size | - while downloading> closed=<0|1> w=<write sizes of this op | ->`
 upload side
   `ul <file-bytes>`              new upload of that file                                  → usnapshot
-  `ubegin <offset> <0|1>` `chunk` `werr` `closed`                                         → usnapshot
-  usnapshot = `<STATE> off=<offset> bt=<bytes_transfered> sent=<n> hs=<fnv of sent>`
+  `ubegin <offset> <0|1>` `chunk` `werr` `closed` `rerr`                                  → usnapshot
+  usnapshot = `<STATE> off=<offset> bt=<bytes_transfered> sent=<n> hs=<fnv of sent> puf=<PeerUploadFailed sent>`
 -/
 open AioslskVerif.FileXfer
 
@@ -41,7 +41,7 @@ def snap (d : Dl) (w : List Nat) : String :=
   s!"{d.st.name} off={d.offset} bt={d.bt} len={len} closed={b01 d.closed} w={joinNat w}"
 
 def usnap (u : Ul) : String :=
-  s!"{u.st.name} off={u.offset} bt={u.bt} sent={u.sent.length} hs={fnv u.sent}"
+  s!"{u.st.name} off={u.offset} bt={u.bt} sent={u.sent.length} hs={fnv u.sent} puf={u.puf}"
 
 structure DSt where
   d : Dl
@@ -112,6 +112,7 @@ def handle (s : DSt) (line : String) : DSt × String :=
   | ["chunk"] => let u := ustep s.F s.u .chunk; ({ s with u := u }, usnap u)
   | ["werr"] => let u := ustep s.F s.u .werr; ({ s with u := u }, usnap u)
   | ["closed"] => let u := ustep s.F s.u .closed; ({ s with u := u }, usnap u)
+  | ["rerr"] => let u := ustep s.F s.u .rerr; ({ s with u := u }, usnap u)
   | _ => (s, "bad-op")
 
 partial def loop (h : IO.FS.Stream) (s : DSt) : IO Unit := do
